@@ -266,67 +266,65 @@ Proof.
 Qed.
 
 Lemma cut_name_S : forall f r2 area rest, cut_name (S f) r2 area rest =
-  let area1 := if area <? 3 then r2 else area in
-  let pre := if area <? 3 then [TBrk] else [] in
-  let length := if area1 <? comp_len_name rest then area1 - 2 else comp_len_name rest in
+  let minimum := match rest with [] => 2 | _ => 3 end in
+  let area1 := if area <? minimum then r2 else area in
+  let pre := if area <? minimum then [TBrk] else [] in
+  let length := if area1 <? len rest + 2 then area1 - 2 else len rest in
   let n := Z.to_nat length in
   if len rest <=? length then (pre ++ [TName false (firstn n rest)], area1 - length - 2)
   else let '(ts, a) := cut_name f r2 (area1 - length - 2) (skipn n rest) in
        (pre ++ TName true (firstn n rest) :: ts, a).
 Proof. reflexivity. Qed.
 
+(* what one turn of the while loop does, 3 <= r2: either the rest fits (it is taken whole, area1 >= its size), or
+   exactly area1 - 2 >= 1 bytes are taken and the record is full *)
+Lemma cut_step : forall r2 area (rest : list Z), 3 <= r2 ->
+  let minimum := match rest with [] => 2 | _ => 3 end in
+  let area1 := if area <? minimum then r2 else area in
+  let lz := if area1 <? len rest + 2 then area1 - 2 else len rest in
+  minimum <= area1 /\
+  ((len rest <=? lz) = true -> lz = len rest /\ len rest + 2 <= area1 /\ firstn (Z.to_nat lz) rest = rest) /\
+  ((len rest <=? lz) = false -> lz = area1 - 2 /\ 1 <= lz < len rest).
+Proof.
+  intros r2 area rest Hr2. cbv zeta.
+  assert (Hm : 2 <= match rest with [] => 2 | _ => 3 end <= 3) by (destruct rest; lia).
+  assert (Hne : match rest with [] => 2 | _ => 3 end = 2 -> len rest = 0) by (destruct rest; [reflexivity|lia]).
+  assert (Hl : 0 <= len rest) by (unfold len; lia).
+  set (m := match rest with [] => 2 | _ => 3 end) in *.
+  set (area1 := if area <? m then r2 else area).
+  assert (Ha : m <= area1) by (unfold area1; destruct (area <? m) eqn:E; lia).
+  split; [exact Ha|]. destruct (area1 <? len rest + 2) eqn:E; split; intros D.
+  - lia.
+  - split; [reflexivity|]. assert (m = 3) by (destruct (Z.eq_dec m 2) as [e|e]; [specialize (Hne e)|]; lia). lia.
+  - split; [reflexivity|]. split; [lia|]. apply firstn_all2. unfold len in *. lia.
+  - lia.
+Qed.
+
 Lemma comps_of_pre : forall (b : bool) ts, comps_of ((if b then [TBrk] else []) ++ ts) = comps_of ts.
 Proof. intros [] ts; reflexivity. Qed.
 
-Lemma forallb_pre : forall (b : bool) ts,
-  forallb tok_ok ((if b then [TBrk] else []) ++ ts) = forallb tok_ok ts.
-Proof. intros [] ts; reflexivity. Qed.
+Lemma sep_plain : forall b1 s1 b2 s2 tail, b1 = false -> b2 = false ->
+  sep (CName b1 s1) tail = sep (CName b2 s2) tail.
+Proof. intros b1 s1 b2 s2 [|x tail] -> ->; reflexivity. Qed.
 
-Lemma render_factory_false : forall s tail, ~ In 47 s ->
-  render (factory false s :: tail) = render (CName false s :: tail).
-Proof.
-  intros s tail H. unfold factory.
-  destruct (is_dot s) eqn:E1; [apply is_dot_eq in E1; subst; reflexivity|].
-  destruct (is_dotdot s) eqn:E2; [apply is_dotdot_eq in E2; subst; reflexivity|].
-  destruct (is_slash s) eqn:E3; [apply is_slash_eq in E3; subst; exfalso; apply H; left; reflexivity|].
-  reflexivity.
-Qed.
-
-(* cutting a name is invisible to the independent reader, provided no continued slice spells "."/".." *)
+(* cutting a name is invisible to the independent reader -- for EVERY name, whatever its slices spell *)
 Lemma render_cut : forall fuel r2 area rest ts a tail,
-  3 <= r2 -> ~ In 47 rest -> (length rest < fuel)%nat ->
-  cut_name fuel r2 area rest = (ts, a) -> forallb tok_ok ts = true ->
+  3 <= r2 -> (length rest < fuel)%nat -> cut_name fuel r2 area rest = (ts, a) ->
   render (comps_of ts ++ tail) = render (CName false rest :: tail).
 Proof.
-  induction fuel as [|f IH]; intros r2 area rest ts a tail Hr2 H47 Hf Hc Hok; [lia|].
-  rewrite cut_name_S in Hc. cbv zeta in Hc.
-  set (area1 := if area <? 3 then r2 else area) in *.
-  assert (Ha1 : 3 <= area1) by (unfold area1; destruct (area <? 3) eqn:E; lia).
-  set (lz := if area1 <? comp_len_name rest then area1 - 2 else comp_len_name rest) in *.
-  pose proof (comp_len_ge rest) as [Hcl1 Hcl2].
-  assert (Hlz : 1 <= lz) by (unfold lz; destruct (area1 <? comp_len_name rest); lia).
+  induction fuel as [|f IH]; intros r2 area rest ts a tail Hr2 Hf Hc; [lia|].
+  rewrite cut_name_S in Hc. cbv zeta in Hc. destruct (cut_step r2 area rest Hr2) as (Hm & Hd & Hn).
+  cbv zeta in Hm, Hd, Hn.
+  set (area1 := if area <? match rest with [] => 2 | _ => 3 end then r2 else area) in *.
+  set (lz := if area1 <? len rest + 2 then area1 - 2 else len rest) in *.
   destruct (len rest <=? lz) eqn:D.
-  - inversion Hc; subst ts a; clear Hc. rewrite comps_of_pre.
-    rewrite firstn_all2 by (unfold len in D; lia).
-    cbn [comps_of flat_map tok_comps app]. apply render_factory_false. exact H47.
+  - inversion Hc; subst ts a; clear Hc. rewrite comps_of_pre. destruct (Hd eq_refl) as (_ & _ & ->). reflexivity.
   - destruct (cut_name f r2 (area1 - lz - 2) (skipn (Z.to_nat lz) rest)) as [ts' a'] eqn:R.
-    inversion Hc; subst ts a; clear Hc.
-    rewrite forallb_pre in Hok. cbn [forallb tok_ok] in Hok. apply andb_true_iff in Hok.
-    destruct Hok as [Hs Hok'].
-    rewrite comps_of_pre. cbn [comps_of flat_map tok_comps]. fold (comps_of ts').
-    set (slice := firstn (Z.to_nat lz) rest) in *.
-    assert (Hin : ~ In 47 slice).
-    { intro Hi. apply H47. rewrite <- (firstn_skipn (Z.to_nat lz) rest). apply in_or_app. left. exact Hi. }
-    assert (Hfac : factory true slice = CName true slice).
-    { unfold factory. apply negb_true_iff in Hs. apply orb_false_iff in Hs. destruct Hs as [H1 H2].
-      rewrite H1, H2. destruct (is_slash slice) eqn:E3; [|reflexivity].
-      apply is_slash_eq in E3. exfalso. apply Hin. rewrite E3. left. reflexivity. }
-    rewrite Hfac. cbn [app]. cbn [render comp_text]. rewrite sep_glue by reflexivity. cbn [app].
-    erewrite IH; [| exact Hr2 | | | exact R | exact Hok'].
-    + cbn [render comp_text]. rewrite app_assoc. unfold slice. rewrite firstn_skipn.
-      f_equal.
-    + intro Hi. apply H47. rewrite <- (firstn_skipn (Z.to_nat lz) rest). apply in_or_app. right. exact Hi.
-    + rewrite skipn_length. unfold len in D. lia.
+    inversion Hc; subst ts a; clear Hc. destruct (Hn eq_refl) as (Hlz & Hlz1 & Hlz2).
+    rewrite comps_of_pre. cbn [comps_of flat_map tok_comps]. fold (comps_of ts'). unfold factory.
+    cbn [app render comp_text]. rewrite sep_glue by reflexivity. cbn [app].
+    erewrite IH; [|exact Hr2| |exact R]; [|rewrite skipn_length; unfold len in *; lia].
+    cbn [render comp_text]. rewrite app_assoc, firstn_skipn. destruct tail; reflexivity.
 Qed.
 
 Definition logical (c : comp) : Prop :=
@@ -360,15 +358,14 @@ Qed.
 
 (* the whole cut-and-distribute pass is invisible to the independent reader *)
 Lemma render_tokens : forall r2 cs area tail,
-  3 <= r2 -> Forall logical cs -> forallb tok_ok (sl_tokens r2 area cs) = true ->
+  3 <= r2 -> Forall logical cs ->
   render (comps_of (sl_tokens r2 area cs) ++ tail) = render (cs ++ tail).
 Proof.
-  intros r2 cs. induction cs as [|c cs IH]; intros area tail Hr2 Hl Hok; [reflexivity|].
+  intros r2 cs. induction cs as [|c cs IH]; intros area tail Hr2 Hl; [reflexivity|].
   inversion Hl as [|c' cs' Hc Hcs]; subst c' cs'.
   cbn [sl_tokens] in *. destruct (one_comp r2 area c) as [ts a] eqn:O.
-  rewrite forallb_app in Hok. apply andb_true_iff in Hok. destruct Hok as [Hok1 Hok2].
   rewrite comps_of_app, <- app_assoc.
-  specialize (IH a tail Hr2 Hcs Hok2).
+  specialize (IH a tail Hr2 Hcs).
   assert (Hspecial : forall c0, c = c0 -> (forall b p, c0 <> CName b p) ->
             render (comps_of ts ++ comps_of (sl_tokens r2 a cs) ++ tail) = render ((c :: cs) ++ tail)).
   { intros c0 -> Hn. assert (Hts : comps_of ts = [c0]).
@@ -382,7 +379,7 @@ Proof.
   - apply (Hspecial CCurrent); [reflexivity|discriminate].
   - apply (Hspecial CParent); [reflexivity|discriminate].
   - clear Hspecial. cbn [logical] in Hc. destruct Hc as [-> H47]. cbn [one_comp] in O.
-    erewrite render_cut; [| exact Hr2 | exact H47 | | exact O | exact Hok1]; [|lia].
+    erewrite render_cut; [| exact Hr2 | | exact O]; [|lia].
     cbn [app render comp_text]. rewrite IH. f_equal. f_equal.
     apply sep_noglue; [reflexivity|reflexivity|apply tail_nil_iff].
 Qed.
@@ -428,124 +425,182 @@ Proof.
     + cbn [map sep]. rewrite Hg. exact J.
 Qed.
 
-Theorem sl_roundtrip_partial : forall r1 r2 target, 3 <= r2 -> sl_ok r1 r2 target = true ->
+(* EVERY non-empty target reads back exactly: names beginning with '.', empty pieces ("a//b"), a trailing or
+   leading "/", "." and ".." pieces, any number of components, names longer than a record.  3 <= r2 is what the
+   loop needs to make progress (r2 = 250 in the code); nothing is asked of r1. *)
+Theorem sl_roundtrip_all : forall r1 r2 target, 3 <= r2 -> target <> [] ->
   sl_reassemble (sl_records r1 r2 (sl_components target)) = target.
 Proof.
-  intros r1 r2 target Hr2 Hok. unfold sl_ok in Hok.
-  assert (Hne : target <> []) by (destruct target; [discriminate|discriminate]).
-  assert (Hok' : forallb tok_ok (sl_tokens r2 r1 (sl_components target)) = true)
-    by (destruct target; [discriminate|exact Hok]).
-  destruct (render_components target Hne) as [R L].
+  intros r1 r2 target Hr2 Hne. destruct (render_components target Hne) as [R L].
   unfold sl_reassemble, sl_records. rewrite take_group.
   rewrite <- (app_nil_r (comps_of _)). rewrite render_tokens by assumption.
   rewrite app_nil_r. exact R.
 Qed.
 
-(* ---------- room-independent sufficient condition ---------- *)
-Definition hd_not_dot (s : list Z) : Prop := match s with 46 :: _ => False | _ => True end.
-
-Lemma not_dots_long : forall s, (3 <= length s)%nat -> is_dot s || is_dotdot s = false.
-Proof. intros [|a [|b [|c s]]] H; cbn [length] in H; try lia. cbn. rewrite !andb_false_r. reflexivity. Qed.
-Lemma not_dots_hd : forall s, s <> [] -> hd_not_dot s -> is_dot s || is_dotdot s = false.
-Proof.
-  intros [|a s] Hn H; [contradiction|]. unfold is_dot, is_dotdot. cbn [zlist_eqb].
-  assert (E : a =? 46 = false) by (cbn in H; destruct (a =? 46) eqn:E; [|reflexivity];
-    assert (a = 46) by lia; subst; contradiction).
-  rewrite E. reflexivity.
-Qed.
-
-Lemma cut_ok : forall fuel r2 area rest ts a, 5 <= r2 ->
-  cut_name fuel r2 area rest = (ts, a) -> area < 3 \/ hd_not_dot rest ->
-  forallb tok_ok ts = true.
-Proof.
-  induction fuel as [|f IH]; intros r2 area rest ts a Hr2 Hc Hh.
-  - inversion Hc. reflexivity.
-  - rewrite cut_name_S in Hc. cbv zeta in Hc.
-    set (area1 := if area <? 3 then r2 else area) in *.
-    set (lz := if area1 <? comp_len_name rest then area1 - 2 else comp_len_name rest) in *.
-    pose proof (comp_len_ge rest) as [Hcl1 Hcl2].
-    destruct (len rest <=? lz) eqn:D.
-    + inversion Hc; subst. rewrite forallb_pre. reflexivity.
-    + destruct (cut_name f r2 (area1 - lz - 2) (skipn (Z.to_nat lz) rest)) as [ts' a'] eqn:R.
-      inversion Hc; subst ts a; clear Hc. rewrite forallb_pre. cbn [forallb tok_ok].
-      assert (Hlz : lz = area1 - 2) by (unfold lz in *; destruct (area1 <? comp_len_name rest); lia).
-      apply andb_true_iff. split.
-      * apply negb_true_iff. destruct Hh as [Hh|Hh].
-        -- apply not_dots_long. rewrite firstn_length. unfold len in D.
-           assert (area1 = r2) by (unfold area1; destruct (area <? 3) eqn:E; lia). lia.
-        -- assert (3 <= area1) by (unfold area1; destruct (area <? 3) eqn:E; lia).
-           apply not_dots_hd.
-           ++ destruct rest as [|x rest']; [unfold len in D; cbn in D; lia|].
-              destruct (Z.to_nat lz) eqn:En; [lia|discriminate].
-           ++ destruct rest as [|x rest']; [unfold len in D; cbn in D; lia|].
-              destruct (Z.to_nat lz) eqn:En; [lia|]. cbn [firstn]. exact Hh.
-      * eapply IH; [exact Hr2|exact R|]. left. lia.
-Qed.
-
-Definition dotless (c : comp) : Prop := match c with CName _ p => hd_not_dot p | _ => True end.
-
-Lemma tokens_ok : forall r2 cs area, 5 <= r2 -> Forall dotless cs -> forallb tok_ok (sl_tokens r2 area cs) = true.
-Proof.
-  intros r2 cs. induction cs as [|c cs IH]; intros area Hr2 Hd; [reflexivity|].
-  inversion Hd as [|c' cs' Hc Hcs]; subst c' cs'. cbn [sl_tokens].
-  destruct (one_comp r2 area c) as [ts a] eqn:O. rewrite forallb_app, IH by assumption.
-  rewrite andb_true_r. destruct c as [| | |b p]; cbn [one_comp] in O;
-    try (inversion O; rewrite forallb_pre; reflexivity).
-  eapply cut_ok; [exact Hr2|exact O|right; exact Hc].
-Qed.
-
-Lemma classify_dotless : forall first p,
-  match p with 46 :: _ => is_dot p || is_dotdot p | _ => true end = true -> dotless (classify first p).
-Proof.
-  intros first p H. unfold classify. destruct p as [|x p']; [destruct first; exact I|].
-  destruct (is_dot (x :: p')) eqn:E1; [exact I|]. destruct (is_dotdot (x :: p')) eqn:E2; [exact I|].
-  cbn [dotless hd_not_dot]. destruct x as [|x|x]; try exact I.
-  do 6 (destruct x as [x|x|]; try exact I). discriminate H.
-Qed.
-
-Theorem no_dot_names_ok : forall r1 r2 target, 5 <= r2 -> no_dot_names target = true ->
-  sl_ok r1 r2 target = true.
-Proof.
-  intros r1 r2 target Hr2 H. unfold no_dot_names in H. unfold sl_ok.
-  destruct target as [|x t]; [discriminate|]. set (tg := x :: t) in *.
-  apply tokens_ok; [exact Hr2|]. unfold sl_components.
-  rewrite forallb_forall in H. destruct (split_slash tg) as [|p ps]; [constructor|].
-  constructor.
-  - apply classify_dotless. apply H. left. reflexivity.
-  - apply Forall_forall. intros c Hc. apply in_map_iff in Hc. destruct Hc as (q & <- & Hq).
-    apply classify_dotless. apply H. right. exact Hq.
-Qed.
-
-(* targets of ANY length in which no name begins with '.' (other than "." and "..") round-trip,
-   including empty pieces ("a//b"), a trailing "/", a leading "/", "." and ".." pieces, names > 250 bytes *)
+(* the two former guarded statements, now corollaries *)
+Theorem sl_roundtrip_partial : forall r1 r2 target, 3 <= r2 -> sl_ok r1 r2 target = true ->
+  sl_reassemble (sl_records r1 r2 (sl_components target)) = target.
+Proof. intros r1 r2 target Hr2 H. apply sl_roundtrip_all; [exact Hr2|]. intros ->. discriminate H. Qed.
 Theorem sl_roundtrip : forall r1 r2 target, 5 <= r2 -> no_dot_names target = true ->
   sl_reassemble (sl_records r1 r2 (sl_components target)) = target.
-Proof. intros. apply sl_roundtrip_partial; [lia|apply no_dot_names_ok; assumption]. Qed.
+Proof. intros r1 r2 target Hr2 H. apply sl_roundtrip_all; [lia|]. intros ->. discriminate H. Qed.
 
-(* ---------- excluded classes: witnesses ---------- *)
+(* ---------- nothing is placed outside the planned room ---------- *)
+Definition tok_size (t : tok) : Z :=
+  match t with TBrk => 0 | TSpecial c => comp_size c | TName _ s => 2 + len s end.
+(* room = what is left in the record being filled; a TBrk opens a record with r2 bytes *)
+Fixpoint fits (room r2 : Z) (ts : list tok) : Prop :=
+  match ts with
+  | [] => True
+  | TBrk :: r => fits r2 r2 r
+  | t :: r => tok_size t <= room /\ fits (room - tok_size t) r2 r
+  end.
+Lemma fits_pre : forall (b : bool) room r2 ts,
+  fits (if b then r2 else room) r2 ts -> fits room r2 ((if b then [TBrk] else []) ++ ts).
+Proof. intros [] room r2 ts H; exact H. Qed.
+
+Lemma cut_fits : forall fuel r2 area rest ts a tail, 3 <= r2 -> (length rest < fuel)%nat ->
+  cut_name fuel r2 area rest = (ts, a) -> fits a r2 tail -> fits area r2 (ts ++ tail).
+Proof.
+  induction fuel as [|f IH]; intros r2 area rest ts a tail Hr2 Hf Hc Ht; [lia|].
+  rewrite cut_name_S in Hc. cbv zeta in Hc. destruct (cut_step r2 area rest Hr2) as (Hm & Hd & Hn).
+  cbv zeta in Hm, Hd, Hn.
+  set (area1 := if area <? match rest with [] => 2 | _ => 3 end then r2 else area) in *.
+  set (lz := if area1 <? len rest + 2 then area1 - 2 else len rest) in *.
+  destruct (len rest <=? lz) eqn:D.
+  - inversion Hc; subst ts a; clear Hc. destruct (Hd eq_refl) as (E1 & E2 & E3).
+    rewrite <- app_assoc. apply fits_pre. fold area1. rewrite E3. cbn [app fits tok_size].
+    split; [lia|]. rewrite E1 in Ht. replace (area1 - (2 + len rest)) with (area1 - len rest - 2) by lia. exact Ht.
+  - destruct (cut_name f r2 (area1 - lz - 2) (skipn (Z.to_nat lz) rest)) as [ts' a'] eqn:R.
+    inversion Hc; subst ts a; clear Hc. destruct (Hn eq_refl) as (Hlz & Hlz1 & Hlz2).
+    rewrite <- app_assoc. apply fits_pre. fold area1. cbn [app fits tok_size].
+    assert (Hs : len (firstn (Z.to_nat lz) rest) = lz) by (unfold len in *; rewrite firstn_length; lia).
+    rewrite Hs. split; [lia|]. replace (area1 - (2 + lz)) with (area1 - lz - 2) by lia.
+    eapply IH; [exact Hr2| |exact R|exact Ht]. rewrite skipn_length. unfold len in *. lia.
+Qed.
+
+Lemma tokens_fits : forall r2 cs area, 3 <= r2 -> fits area r2 (sl_tokens r2 area cs).
+Proof.
+  intros r2 cs. induction cs as [|c cs IH]; intros area Hr2; [exact I|]. cbn [sl_tokens].
+  destruct (one_comp r2 area c) as [ts a] eqn:O.
+  destruct c as [| | |b p]; cbn [one_comp] in O;
+    try (inversion O; subst ts a; rewrite <- app_assoc; apply fits_pre; cbn [app fits tok_size];
+         change (comp_size _) with 2; split; [destruct (area <? 2) eqn:E; lia|];
+         replace ((if area <? 2 then r2 else area) - 2) with ((if area <? 2 then r2 else area) - 0 - 2) by lia;
+         apply IH; exact Hr2).
+  eapply cut_fits; [exact Hr2| |exact O|apply IH; exact Hr2]. lia.
+Qed.
+
+Lemma comp_size_nonneg : forall c, 0 <= comp_size c.
+Proof. intro c. unfold comp_size, len. lia. Qed.
+Lemma comps_size_nonneg : forall cs, 0 <= comps_size cs.
+Proof. induction cs as [|c cs IH]; cbn [comps_size fold_right]; [lia|]. pose proof (comp_size_nonneg c). unfold comps_size in IH. lia. Qed.
+Lemma comp_size_name : forall b s, comp_size (CName b s) = 2 + len s.
+Proof. intros b s. unfold comp_size, comp_bytes, comp_pair, len. rewrite app_length. cbn [length]. lia. Qed.
+
+Lemma group_fits : forall r2 ts room, 0 <= r2 -> fits room r2 ts ->
+  exists r0 rs, group ts = r0 :: rs /\ comps_size (snd r0) <= Z.max 0 room /\
+                Forall (fun r => comps_size (snd r) <= r2) rs.
+Proof.
+  intros r2 ts. induction ts as [|t r IH]; intros room Hr2 H.
+  - exists (false, []), []. cbn. repeat split; [lia|constructor].
+  - destruct t as [|c|b s]; cbn [fits group] in *.
+    + destruct (IH _ Hr2 H) as (r0 & rs & -> & H1 & H2). exists (true, []), (r0 :: rs).
+      split; [reflexivity|]. split; [cbn; lia|]. constructor; [lia|exact H2].
+    + destruct H as [Hs H]. destruct (IH _ Hr2 H) as ([fl cs] & rs & -> & H1 & H2).
+      exists (fl, c :: cs), rs. split; [reflexivity|]. split; [|exact H2].
+      cbn [snd comps_size fold_right tok_size] in *. pose proof (comp_size_nonneg c). unfold comps_size in H1. lia.
+    + destruct H as [Hs H]. destruct (IH _ Hr2 H) as ([fl cs] & rs & -> & H1 & H2).
+      exists (fl, factory b s :: cs), rs. split; [reflexivity|]. split; [|exact H2]. unfold factory.
+      cbn [snd comps_size fold_right tok_size] in *. rewrite comp_size_name. unfold len in *. unfold comps_size in H1. lia.
+Qed.
+
+(* every record _new_symlink produces fits the room it was opened with: the first one r1 (what is left in the
+   directory record, or 250 in the continuation area), every further one r2 *)
+Theorem sl_rooms : forall r1 r2 cs, 3 <= r2 ->
+  exists r0 rs, sl_records r1 r2 cs = r0 :: rs /\ comps_size (snd r0) <= Z.max 0 r1 /\
+                Forall (fun r => comps_size (snd r) <= r2) rs.
+Proof. intros r1 r2 cs Hr2. apply group_fits; [lia|]. apply tokens_fits. exact Hr2. Qed.
+
+(* if the uncut components fit the first room, the loop opens no further record and cuts nothing *)
+Lemma single_record : forall r2 cs area, Forall logical cs -> comps_size cs <= area ->
+  group (sl_tokens r2 area cs) = [(false, cs)].
+Proof.
+  intros r2 cs. induction cs as [|c cs IH]; intros area Hl Hs; [reflexivity|].
+  inversion Hl as [|c' cs' Hc Hcs]; subst c' cs'. cbn [comps_size fold_right] in Hs. fold (comps_size cs) in Hs.
+  pose proof (comps_size_nonneg cs) as Hn. cbn [sl_tokens].
+  assert (Hsp : forall c0, c = c0 -> comp_size c0 = 2 -> (forall b p, c0 <> CName b p) ->
+                let '(ts, a) := one_comp r2 area c0 in group (ts ++ sl_tokens r2 a cs) = [(false, c0 :: cs)]).
+  { intros c0 -> H2 Hnn. assert (E : area <? 2 = false) by lia.
+    destruct c0; cbn [one_comp]; try (exfalso; eapply Hnn; reflexivity); rewrite E; cbn [app group];
+      rewrite IH by (assumption || lia); reflexivity. }
+  destruct c as [| | |b p].
+  - apply (Hsp CRoot); [reflexivity|reflexivity|discriminate].
+  - apply (Hsp CCurrent); [reflexivity|reflexivity|discriminate].
+  - apply (Hsp CParent); [reflexivity|reflexivity|discriminate].
+  - clear Hsp. destruct Hc as [-> _]. rewrite comp_size_name in Hs. cbn [one_comp]. rewrite cut_name_S. cbv zeta.
+    assert (Hm : match p with [] => 2 | _ => 3 end <= 2 + len p) by (destruct p; unfold len; cbn [length]; lia).
+    replace (area <? match p with [] => 2 | _ => 3 end) with false by lia.
+    replace (area <? len p + 2) with false by lia. rewrite Z.leb_refl.
+    rewrite firstn_all2 by (unfold len; lia). cbn [app group]. unfold factory.
+    rewrite IH by (assumption || lia). reflexivity.
+Qed.
+
+Lemma classify_size : forall first p, ~ In 47 p -> comp_size (classify first p) = comp_len_name p.
+Proof.
+  intros first p H. unfold classify, comp_len_name. destruct p as [|x p']; [destruct first; reflexivity|].
+  destruct (is_dot (x :: p')) eqn:E1; [reflexivity|]. destruct (is_dotdot (x :: p')) eqn:E2; [reflexivity|].
+  destruct (is_slash (x :: p')) eqn:E3; [apply is_slash_eq in E3; exfalso; apply H; rewrite E3; left; reflexivity|].
+  cbn [orb]. apply comp_size_name.
+Qed.
+Lemma components_size : forall target,
+  comps_size (sl_components target) = fold_right (fun p acc => comp_len_name p + acc) 0 (split_slash target).
+Proof.
+  intros target. unfold sl_components. pose proof (split_no_slash target) as N.
+  destruct (split_slash target) as [|p ps]; [reflexivity|]. inversion N as [|p' ps' Hp Hps]; subst.
+  cbn [comps_size fold_right]. rewrite classify_size by exact Hp. f_equal.
+  induction Hps as [|q qs Hq Hqs IH]; [reflexivity|]. cbn [map fold_right]. rewrite classify_size by exact Hq.
+  rewrite IH; [reflexivity|constructor; assumption].
+Qed.
+
+(* first pass of RockRidge.new (no CE entry): _new_symlink proceeds only if the uncut SL entry fits, and then
+   everything stays in the one record that is written -- nothing is lost *)
+Theorem sl_no_ce_single_record : forall r1 r2 target, target <> [] -> sl_accepts_no_ce r1 target = true ->
+  sl_records r1 r2 (sl_components target) = [(false, sl_components target)].
+Proof.
+  intros r1 r2 target Hne H. unfold sl_accepts_no_ce in H. destruct (render_components target Hne) as [_ L].
+  apply single_record; [exact L|]. rewrite components_size. lia.
+Qed.
+Corollary sl_no_ce_roundtrip : forall r1 r2 target, target <> [] -> sl_accepts_no_ce r1 target = true ->
+  sl_reassemble (sl_written false (sl_records r1 r2 (sl_components target))) = target.
+Proof.
+  intros r1 r2 target Hne H. rewrite (sl_no_ce_single_record r1 r2 target Hne H). cbn [sl_written firstn].
+  unfold sl_reassemble. cbn [take_records]. rewrite app_nil_r. apply render_components. exact Hne.
+Qed.
+
+(* ---------- the former witnesses, now read back exactly ---------- *)
 Lemma zlist_neq : forall a b, zlist_eqb a b = false -> a <> b.
 Proof. intros a b H E. apply zlist_eqb_eq in E. congruence. Qed.
 
-(* a name beginning with '.' cut right after the dot: "aaa…a/.bbb/ccc…c" (129 a's, 100 c's), 136 bytes of
-   room in the directory record.  On disk: [NAME a*129; CURRENT] + CONTINUE, [NAME bbb; NAME c*100]. *)
-
-Theorem sl_roundtrip_refuted : exists r1 target, target <> [] /\ sl_ok r1 250 target = false /\
-  sl_reassemble (sl_records r1 250 (sl_components target)) <> target.
-Proof.
-  exists 136, w_dot. split; [discriminate|]. split; [vm_compute; reflexivity|].
-  apply zlist_neq. vm_compute. reflexivity.
-Qed.
-
-Lemma w_dot_reads_as : sl_reassemble (sl_records 136 250 (sl_components w_dot)) = w_dot_read
-  /\ symlink_path_model (sl_records 136 250 (sl_components w_dot)) = Some w_dot_read
-  /\ map (fun r => (fst r, map comp_pair (snd r))) (sl_records 136 250 (sl_components w_dot))
-     = [(true, [(0, repeat 97 129%nat); (2, [])]); (false, [(0, [98; 98; 98]); (0, repeat 99 100%nat)])].
+(* "aaa...a/.bbb/ccc...c" (129 a's, 100 c's), 134 bytes of room: the name ".bbb" is cut right after its dot; the
+   slice "." is now the NAME component (flags 1 = CONTINUE, "."), not CURRENT *)
+Example w_dot_reads_back :
+  sl_reassemble (sl_records 134 250 (sl_components w_dot)) = w_dot
+  /\ symlink_path_model (sl_records 134 250 (sl_components w_dot)) = Some w_dot
+  /\ map (fun r => (fst r, map comp_pair (snd r))) (sl_records 134 250 (sl_components w_dot))
+     = [(true, [(0, repeat 97 129%nat); (1, [46])]); (false, [(0, [98; 98; 98]); (0, repeat 99 100%nat)])].
 Proof. vm_compute. repeat split. Qed.
-
-(* same with ".." : "a*128/..bbb/c*100" reads back as "a*128/../bbb/c*100" *)
-Lemma w_dotdot_reads_as :
-  sl_reassemble (sl_records 136 250 (sl_components w_dotdot)) = w_dotdot_read.
-Proof. vm_compute. reflexivity. Qed.
+Example w_dotdot_reads_back :
+  sl_reassemble (sl_records 134 250 (sl_components w_dotdot)) = w_dotdot
+  /\ map (fun r => (fst r, map comp_pair (snd r))) (sl_records 134 250 (sl_components w_dotdot))
+     = [(true, [(0, repeat 97 128%nat); (1, [46; 46])]); (false, [(0, [98; 98; 98]); (0, repeat 99 100%nat)])].
+Proof. vm_compute. repeat split. Qed.
+(* 40 one-letter names, 164 bytes of room, no CE record: 125 <= 164, one record *)
+Example w_many_reads_back :
+  sl_accepts_no_ce 164 w_many = true /\
+  sl_reassemble (sl_written false (sl_records 164 250 (sl_components w_many))) = w_many /\
+  length (sl_records 164 250 (sl_components w_many)) = 1%nat.
+Proof. vm_compute. repeat split. Qed.
 
 (* the empty target (never passed by pycdlib: `if symlink_path:`) would be written as ROOT *)
 Lemma sl_empty_refuted : forall r1, 2 <= r1 -> sl_reassemble (sl_records r1 250 (sl_components [])) = [47].
@@ -554,27 +609,20 @@ Proof.
   destruct (r1 <? 2) eqn:E; [lia|]. reflexivity.
 Qed.
 
-(* no CE record (first pass of RockRidge.new): the length test uses the true size, the loop uses the
-   pessimistic tracker (2 bytes lost per fitting name); 40 one-letter names: the test passes (125 <= 164),
-   the tracker overflows after 33 names, the second SL record lands in ce_entries and is never written. *)
-Theorem sl_no_ce_refuted : exists r1 target, no_dot_names target = true /\ sl_accepts_no_ce r1 target = true /\
-  sl_reassemble (sl_written false (sl_records r1 250 (sl_components target))) <> target.
-Proof.
-  exists 164, w_many. split; [vm_compute; reflexivity|]. split; [vm_compute; reflexivity|].
-  apply zlist_neq. vm_compute. reflexivity.
-Qed.
-Lemma w_many_reads_as :
-  sl_reassemble (sl_written false (sl_records 164 250 (sl_components w_many))) = join_slash (repeat [97] 33%nat).
-Proof. vm_compute. reflexivity. Qed.
-
-(* pycdlib's reader on a foreign image: a symlink to "/" stored as the single component ROOT reads as b'' *)
+(* pycdlib's reader on a foreign image: a symlink to "/" stored as the single component ROOT reads as b''
+   (pycdlib itself writes "/" as [ROOT; NAME ""], which both readers read as "/": root_target_roundtrip) *)
 Lemma pycdlib_reader_root_refuted :
   symlink_path_model [(false, [CRoot])] = Some [] /\ sl_reassemble [(false, [CRoot])] = [47].
 Proof. split; reflexivity. Qed.
+Example root_target_roundtrip :
+  sl_records 100 250 (sl_components [47]) = [(false, [CRoot; CName false []])] /\
+  symlink_path_model (sl_records 100 250 (sl_components [47])) = Some [47] /\
+  sl_reassemble (sl_records 100 250 (sl_components [47])) = [47].
+Proof. repeat split. Qed.
 
 (* ---------- bounded agreement of pycdlib's reader with the independent reader ---------- *)
 (* all targets of length <= 7 over {'a', '.', '/'}, first room 3..9, next room 5: pycdlib's symlink_path()
-   and the independent reader agree, and sl_ok is EXACTLY the round-tripping class *)
+   and the independent reader agree and give the target back *)
 Theorem readers_agree_bounded :
   forallb (fun r1 => forallb (agree_on r1 5) (words [97; 46; 47] 7)) [3; 4; 5; 6; 7; 8; 9] = true.
 Proof. vm_compute. reflexivity. Qed.
@@ -607,22 +655,20 @@ Theorem cut_name_flags : forall fuel r2 area rest ts a, 3 <= r2 -> (length rest 
   slices ts <> [] /\ all_but_last true false (map fst (slices ts)) /\ concat (map snd (slices ts)) = rest.
 Proof.
   induction fuel as [|f IH]; intros r2 area rest ts a Hr2 Hf Hc; [lia|].
-  rewrite cut_name_S in Hc. cbv zeta in Hc.
-  set (area1 := if area <? 3 then r2 else area) in *.
-  assert (Ha1 : 3 <= area1) by (unfold area1; destruct (area <? 3) eqn:E; lia).
-  set (lz := if area1 <? comp_len_name rest then area1 - 2 else comp_len_name rest) in *.
-  pose proof (comp_len_ge rest) as [Hcl1 Hcl2].
-  assert (Hlz : 1 <= lz) by (unfold lz; destruct (area1 <? comp_len_name rest); lia).
+  rewrite cut_name_S in Hc. cbv zeta in Hc. destruct (cut_step r2 area rest Hr2) as (Hm & Hd & Hn).
+  cbv zeta in Hm, Hd, Hn.
+  set (area1 := if area <? match rest with [] => 2 | _ => 3 end then r2 else area) in *.
+  set (lz := if area1 <? len rest + 2 then area1 - 2 else len rest) in *.
   destruct (len rest <=? lz) eqn:D.
-  - inversion Hc; subst ts a. rewrite slices_pre. cbn. rewrite app_nil_r.
-    rewrite firstn_all2 by (unfold len in D; lia). repeat split. discriminate.
+  - inversion Hc; subst ts a. rewrite slices_pre. destruct (Hd eq_refl) as (_ & _ & ->). cbn. rewrite app_nil_r.
+    repeat split. discriminate.
   - destruct (cut_name f r2 (area1 - lz - 2) (skipn (Z.to_nat lz) rest)) as [ts' a'] eqn:R.
-    inversion Hc; subst ts a; clear Hc. rewrite slices_pre.
+    inversion Hc; subst ts a; clear Hc. destruct (Hn eq_refl) as (Hlz & Hlz1 & Hlz2). rewrite slices_pre.
     change (slices (TName true (firstn (Z.to_nat lz) rest) :: ts'))
       with ((true, firstn (Z.to_nat lz) rest) :: slices ts').
     assert (Hlen : (length (skipn (Z.to_nat lz) rest) < f)%nat)
-      by (rewrite skipn_length; unfold len in D; lia).
-    destruct (IH _ _ _ _ _ Hr2 Hlen R) as (Hn & Hfl & Hcat).
+      by (rewrite skipn_length; unfold len in *; lia).
+    destruct (IH _ _ _ _ _ Hr2 Hlen R) as (Hne & Hfl & Hcat).
     split; [discriminate|]. split.
     + cbn [map fst]. destruct (slices ts') as [|x xs]; [contradiction|]. split; [reflexivity|exact Hfl].
     + cbn [map snd concat]. rewrite Hcat. apply firstn_skipn.
@@ -638,10 +684,7 @@ Fixpoint brk_after_cont (ts : list tok) : Prop :=
   end.
 
 Lemma factory_cont : forall b s, comp_continued (factory b s) = true -> b = true.
-Proof.
-  intros b s. unfold factory. destruct (is_dot s); [discriminate|]. destruct (is_dotdot s); [discriminate|].
-  destruct (is_slash s); [discriminate|]. cbn. auto.
-Qed.
+Proof. intros b s H. exact H. Qed.
 
 Lemma emit_disc : forall c k, k <> [] -> comp_continued c = false ->
   Forall (fun r => cont_last_only (fst r) (snd r)) k ->
@@ -664,8 +707,7 @@ Proof.
       * destruct H as [Hb H]. destruct r as [|t' r']; [destruct Hb|]. destruct t'; try (destruct Hb).
         specialize (IH H). cbn [group emit] in *. inversion IH; subst.
         constructor; [cbn; auto|assumption].
-      * apply emit_disc; [apply group_nonnil| |apply IH; exact H].
-        destruct (comp_continued (factory false s)) eqn:E; [apply factory_cont in E; discriminate|reflexivity].
+      * apply emit_disc; [apply group_nonnil|reflexivity|apply IH; exact H].
 Qed.
 
 Lemma brk_pre : forall (b : bool) ts, brk_after_cont ((if b then [TBrk] else []) ++ ts) <-> brk_after_cont ts.
@@ -675,20 +717,22 @@ Lemma cut_brk : forall fuel r2 area rest ts a tail, 3 <= r2 -> (length rest < fu
   cut_name fuel r2 area rest = (ts, a) -> brk_after_cont tail -> brk_after_cont (ts ++ tail).
 Proof.
   induction fuel as [|f IH]; intros r2 area rest ts a tail Hr2 Hf Hc Ht; [lia|].
-  rewrite cut_name_S in Hc. cbv zeta in Hc.
-  set (area1 := if area <? 3 then r2 else area) in *.
-  assert (Ha1 : 3 <= area1) by (unfold area1; destruct (area <? 3) eqn:E; lia).
-  set (lz := if area1 <? comp_len_name rest then area1 - 2 else comp_len_name rest) in *.
-  pose proof (comp_len_ge rest) as [Hcl1 Hcl2].
+  rewrite cut_name_S in Hc. cbv zeta in Hc. destruct (cut_step r2 area rest Hr2) as (Hm & Hd & Hn).
+  cbv zeta in Hm, Hd, Hn.
+  set (area1 := if area <? match rest with [] => 2 | _ => 3 end then r2 else area) in *.
+  set (lz := if area1 <? len rest + 2 then area1 - 2 else len rest) in *.
   destruct (len rest <=? lz) eqn:D.
   - inversion Hc; subst ts a. rewrite <- app_assoc. apply brk_pre. exact Ht.
-  - assert (Hlz : lz = area1 - 2) by (unfold lz in *; destruct (area1 <? comp_len_name rest); lia).
+  - destruct (Hn eq_refl) as (Hlz & Hlz1 & Hlz2).
     destruct (cut_name f r2 (area1 - lz - 2) (skipn (Z.to_nat lz) rest)) as [ts' a'] eqn:R.
     inversion Hc; subst ts a; clear Hc. rewrite <- app_assoc. apply brk_pre.
     assert (Hlen : (length (skipn (Z.to_nat lz) rest) < f)%nat)
-      by (rewrite skipn_length; unfold len in D; lia).
+      by (rewrite skipn_length; unfold len in *; lia).
     cbn [app brk_after_cont]. split; [|exact (IH _ _ _ _ _ _ Hr2 Hlen R Ht)].
     destruct f as [|f']; [lia|]. rewrite cut_name_S in R. cbv zeta in R.
+    assert (Hsk : skipn (Z.to_nat lz) rest <> []).
+    { intro E. apply (f_equal (@length Z)) in E. rewrite skipn_length in E. cbn [length] in E. unfold len in *. lia. }
+    destruct (skipn (Z.to_nat lz) rest) as [|y ys] eqn:Sk; [contradiction|].
     replace (area1 - lz - 2 <? 3) with true in R by lia.
     destruct (len _ <=? _) in R; [inversion R; exact I|].
     destruct (cut_name f' _ _ _) in R. inversion R. exact I.
@@ -710,13 +754,13 @@ Proof. intros. apply group_disc. apply tokens_brk. assumption. Qed.
 (* the two CONTINUE flags are different things: a record is continued without its last component being
    continued when a name ends at the record boundary ... *)
 Example flags_record_only :
-  sl_records 7 250 (sl_components [97; 47; 98; 99; 100])
+  sl_records 4 250 (sl_components [97; 47; 98; 99; 100])
   = [(true, [CName false [97]]); (false, [CName false [98; 99; 100]])].
 Proof. reflexivity. Qed.
 (* ... and both are set when a name is cut *)
 Example flags_both :
-  sl_records 8 250 (sl_components [97; 47; 98; 99; 100])
-  = [(true, [CName false [97]; CName true [98]]); (false, [CName false [99; 100]])].
+  sl_records 7 250 (sl_components [97; 47; 98; 99; 100])
+  = [(true, [CName false [97]; CName true [98; 99]]); (false, [CName false [100]])].
 Proof. reflexivity. Qed.
 
 Print Assumptions utf16_roundtrip.
@@ -724,10 +768,12 @@ Print Assumptions joliet_dr_fits.
 Print Assumptions joliet_over_refusal.
 Print Assumptions nm_roundtrip.
 Print Assumptions nm_piece_bounds.
+Print Assumptions sl_roundtrip_all.
 Print Assumptions sl_roundtrip_partial.
 Print Assumptions sl_roundtrip.
-Print Assumptions sl_roundtrip_refuted.
-Print Assumptions sl_no_ce_refuted.
+Print Assumptions sl_rooms.
+Print Assumptions sl_no_ce_single_record.
+Print Assumptions sl_no_ce_roundtrip.
 Print Assumptions readers_agree_bounded.
 Print Assumptions sl_record_flags.
 Print Assumptions cut_name_flags.
